@@ -209,12 +209,26 @@ CLAIMED.update({
     },
 })
 
+CLAIMED.update({
+    "C06": {
+        "text": "Structural half of the SAM text round trip: write_record calls the twelve field writers in SAM column order and feeds each from "
+                "the accessor of that column; the k-th split field of the eager parser reaches the setter of column k (data flow, insensitive "
+                "to statement order); dec∘enc = id for the text codings of CIGAR kinds, aux types (many-to-one: width is not carried) and array "
+                "subtypes against all decoders of the family incl. the lazy record's; missing markers; BAM header dictionary check; RNEXT '='. "
+                "Float text, integer widths, fixed-point equality and the header grammar are NOT decided.",
+        "note": "value formatting is unit-test territory",
+        "technique": "static analysis: call sequences in reverse post-order, def-use from split/accessor to setter/writer, HIR match-table agreement, evaluated constants",
+        "design_ref": "§5 C06",
+    },
+})
+
 NOT_APPLICABLE = {
     "C08": "every clause is numeric (rANS/arith/fqzcomp state arithmetic, ITF8/LTF8 bit arithmetic): correct and off-by-one "
            "implementations have the same code shape, so no sound static rule short of a solver/proof decides it; the "
            "structural crumbs (dispatch exhaustiveness, twins, panic sites) are reported under C07/C16/C15 instead",
 }
 
+PENDING = {}
 PENDING_REASON = "check under construction in this round (static rules designed in DESIGN.md §5, not armed yet)"
 
 ALL = ["C%02d" % i for i in range(1, 21)]
